@@ -30,6 +30,9 @@ impl Head {
 
     pub fn write(&mut self, data: &[u8]) -> Result<(), IoError> {
         fail_point!("write-head");
+        // the handle cached for reads is a dup of this one and shares its cursor,
+        // so a retrieval from the head file leaves the cursor in the middle of the file
+        self.file.seek(SeekFrom::Start(self.bytes))?;
         self.file.write_all(data)?;
         self.bytes += data.len() as u64;
         Ok(())
